@@ -33,6 +33,11 @@ def shards(tier: str, seed: int) -> List[Dict[str, Any]]:
         for ci, c in enumerate(cfgs[: (1 if tier == "quick" else 2)]):
             for b in bsizes:
                 out.append({"id": f"{e}|{c['id']}|b{b}", "env": e, "cfg": c, "batch": b, "weight": HEAVY.get(e, 1.0) * (1 + b / 8)})
+    # render/slice clause on configurations whose per-instance state has unit-length axes (single agent, 1 city ...):
+    # slicing element 0 must keep those axes
+    out.append({"id": "render|unit_axes", "kind": "render_unit_axes", "weight": 3.0,
+                "cfgs": [["Cleaner", "r5c5a1"], ["LevelBasedForaging", "g5a1f1v1L3"], ["RobotWarehouse", "s1x3h3a1r1q2L1"],
+                         ["Connector", "w3a1L3"], ["TSP", "n1"], ["FlatPack", "r1c1"]]})
     return out
 
 
@@ -49,11 +54,49 @@ def slice_tree(tree, i):
     return jax.tree_util.tree_map(lambda x: x[i], tree)
 
 
+def run_render_unit_axes(shard: Dict[str, Any], rep: Report) -> None:
+    import jax
+    import jax.numpy as jnp
+    from jumanji.wrappers import VmapAutoResetWrapper, VmapWrapper, Wrapper
+
+    for name, cid in shard["cfgs"]:
+        cfg = E.cfg_by_id(name, cid)
+        env = E.build(name, cfg)
+        seen = []
+
+        class Recorder(Wrapper):
+            def render(self, st):
+                seen.append(st)
+                return "rendered"
+
+        for b in (1, 2, 4):
+            keys = jnp.stack([key_for(shard["seed"], shard["id"] + name, j)[0] for j in range(b)])
+            for W in (VmapWrapper, VmapAutoResetWrapper):
+                w = W(Recorder(env))
+                state, _ = jax.jit(w.reset)(keys)
+                single, _ = jax.jit(env.reset)(keys[0])
+                seen.clear()
+                rep.evaluated(1, name + cid + str(b))
+                rep.count("render_unit_axes_checked")
+                try:
+                    w.render(state)
+                except Exception as e:
+                    rep.violation(name, cid, "render_raises", {"wrapper": W.__name__, "error": repr(e)[:300], "batch": b}, replay={"env": name, "cfg": cfg, "batch": b})
+                    continue
+                if len(seen) != 1 or tree_diff(decode(seen[0]), decode(single), exact=True):
+                    bad = tree_diff(decode(seen[0]), decode(single), exact=True) if seen else []
+                    rep.violation(name, cid, "render_first_element", {"wrapper": W.__name__, "calls": len(seen), "fields": bad[:6], "batch": b}, replay={"env": name, "cfg": cfg, "batch": b})
+        E.cleanup()
+
+
 def run_shard(shard: Dict[str, Any], rep: Report) -> None:
     import jax
     import jax.numpy as jnp
     from jumanji.wrappers import AutoResetWrapper, VmapAutoResetWrapper, VmapWrapper, Wrapper
 
+    if shard.get("kind") == "render_unit_axes":
+        run_render_unit_axes(shard, rep)
+        return
     tier, seed, sid = shard["tier"], shard["seed"], shard["id"]
     name, cfg, b = shard["env"], shard["cfg"], shard["batch"]
     cid = cfg["id"]
@@ -218,6 +261,8 @@ def floors(tier: str, counters: Dict[str, int], per_env: Dict[str, Dict[str, int
             missed.append(f"{e}: no batched step with a terminating element")
         if pe.get("pattern_none", 0) < 1:
             missed.append(f"{e}: no batched step without termination")
+    if counters.get("render_unit_axes_checked", 0) < 30:
+        missed.append("render on unit-axis configurations not checked")
     if counters.get("render_checked", 0) < 2 * len(E.ENVS):
         missed.append("render not checked on every environment")
     return missed
